@@ -373,7 +373,12 @@ func (w *c07World) finish(c *c07Case) {
 			}
 		}
 	}
-	for round := 0; round < 40 && len(open) > 0 && !w.stuck.Load(); round++ {
+	flushWait := 3 * time.Second
+	if c07SawStuck.Load() {
+		flushWait = 500 * time.Millisecond
+	}
+	flushEnd := time.Now().Add(flushWait)
+	for round := 0; len(open) > 0 && !w.stuck.Load() && (round < 40 || time.Now().Before(flushEnd)) && round < 400; round++ {
 		w.settle(300*time.Microsecond, 20*time.Millisecond)
 		pending := 0
 		for _, s := range open {
